@@ -46,15 +46,30 @@ func genSBloom(seed uint64, tier, variant string) any {
 		p.WindowUs = 999_999 // refused
 	}
 	w := p.WindowUs
-	p.TickUs = []int64{w / 400, w / 100, w / 50, w / 20, w / 20, w / 8, w / 8, w / 4, w/2 - 1000, w/2 - 100, 1000, 100}
+	// clock steps between a hundredth and a third of the window (plus a few tiny ones), so that the delay between an add
+	// and the queries about it spreads over the whole half window and one to three rotations fall into it
+	p.TickUs = []int64{w / 100, w / 30, w / 16, w / 12, w / 10, w / 8, w / 7, w / 6, w / 5, w / 4, w/4 + 1000, w / 3, w/2 - 1500, 1000, 100}
 	p.ClockOffMs = pick[int64](r, 0, 0, 12_345, -86_400_000, 3_600_000_123)
-	p.Sim = SimSpec{CutProb: pick(r, 0.0, 0.3, 0.8), MaxSteps: 10000, TickWeight: pick(r, 0.15, 0.4, 0.8)}
+	p.Sim = SimSpec{CutProb: pick(r, 0.0, 0.3, 0.8), MaxSteps: 10000, TickWeight: pick(r, 0.3, 0.6, 1.0)}
 	destructive := r.IntN(100) < 20
 	ops := []string{"add", "add", "addm", "ex", "ex", "ex", "ex", "exm", "exm"}
 	if destructive {
 		ops = append(ops, "reset", "delete")
 	}
 	genBloomTasks(r, p, seed, heavy, destructive, ops)
+	if r.IntN(2) == 0 && !heavy {
+		// a watcher: adds one item and keeps asking about it while the clock moves on (its queries also trigger rotations)
+		x := p.Tasks[0][0].Items
+		if len(x) == 0 {
+			x = []string{"watched"}
+		}
+		x = x[:1]
+		calls := []ProbCall{{Op: "add", Items: x, Cl: r.IntN(p.Clients)}}
+		for i, n := 0, 4+r.IntN(6); i < n; i++ {
+			calls = append(calls, ProbCall{Op: "ex", Items: x, Cl: r.IntN(p.Clients)})
+		}
+		p.Tasks = append(p.Tasks, calls)
+	}
 	for i, n := 0, r.IntN(3); i < n; i++ {
 		p.Ghosts = append(p.Ghosts, ProbGhost{MinStep: r.IntN(150), Argv: []string{"SCRIPT", "FLUSH"}})
 	}
